@@ -526,7 +526,7 @@ func c06Triples(w *core.Worker, s *core.Sess, i int) {
 
 func absU(i int64) uint64 {
 	if i < 0 {
-		return uint64(-(i+1)) + 1
+		return uint64(-(i + 1)) + 1
 	}
 	return uint64(i)
 }
